@@ -7,7 +7,7 @@ python3 - "$d" "$prop" "$4" "$5" "$6" "$7" <<'PY'
 import json,sys
 d,prop,summ,needs,caught,sig=sys.argv[1:7]
 json.dump({"property":prop,"summary":summ,"needs_to_manifest":needs,
-"origin":"independent sub-agent (third round, steered towards other clauses) with a scratch worktree of /repo at 6c212ea",
+"origin":"independent sub-agent (" + __import__("os").environ.get("SEED_ROUND","seventh round") + ") with a scratch worktree of /repo at " + __import__("os").environ.get("SEED_BASE","8829920"),
 "verified":{"suite_with_change":"go test of the touched package passes (tools/seedverify.sh)","demo_with_change":"FAIL","demo_without_change":"ok"},
 "checks_run":"tools/seedtest.sh <patch> 30-80 <ids>","caught_by":caught,"violation_signature":sig},open(d+"/meta.json","w"),indent=1)
 PY
